@@ -299,6 +299,26 @@ class KernelHooks(Hooks):
             for k in range(nbytes // 8):
                 it.write(it.deref(it.ptr_add(dst, k), node), Poly.const(0), node)
             return dst
+        if base == 'std::equal' and len(args) == 3:
+            a, e, b = it.eval(args[0]), it.eval(args[1]), it.eval(args[2])
+            n = self._count(it, a, e, node)
+            acc = 1
+            for k in range(n):
+                x = it.read(it.deref(it.ptr_add(a, k), node), node)
+                y = it.read(it.deref(it.ptr_add(b, k), node), node)
+                c = it.compare('==', x, y, node)
+                if isinstance(c, Cond) or isinstance(acc, Cond):
+                    acc = c if (not isinstance(acc, Cond) and acc) else (Cond('and', acc, c) if isinstance(acc, Cond) and isinstance(c, Cond) else (acc if c else 0))
+                elif not c:
+                    return 0
+            return acc
+        if base == 'std::is_sorted' and len(args) == 2:
+            a, e = it.eval(args[0]), it.eval(args[1])
+            n = self._count(it, a, e, node)
+            vals = [it.read(it.deref(it.ptr_add(a, k), node), node) for k in range(n)]
+            if all(isinstance(v, int) for v in vals):
+                return 1 if all(vals[i] <= vals[i + 1] for i in range(n - 1)) else 0
+            return NotImplemented
         if base == 'std::inner_product' and len(args) == 4:
             a, e, b, init = it.eval(args[0]), it.eval(args[1]), it.eval(args[2]), it.eval(args[3])
             n = self._count(it, a, e, node)
